@@ -222,6 +222,64 @@ def template_pin(rng):
     return fen_of(b, "w")
 
 
+def template_multipin(rng):
+    """two to four of our men pinned at once on different rays of an advanced king (any mix of diagonals, files and ranks)"""
+    kf, kr = rng.randrange(1, 7), rng.randrange(1, 7)
+    dirs = [(1, 1), (-1, 1), (1, -1), (-1, -1), (0, 1), (0, -1), (1, 0), (-1, 0)]
+    rng.shuffle(dirs)
+    b = {sq(kf, kr): "K"}
+    pins = 0
+    for d in dirs[: rng.choice([2, 2, 3, 4])]:
+        line = []
+        f, r = kf + d[0], kr + d[1]
+        while on(f, r):
+            line.append((f, r))
+            f, r = f + d[0], r + d[1]
+        if len(line) < 2 or any(sq(*x) in b for x in line):
+            continue
+        a = rng.randrange(len(line) - 1)
+        bpos = rng.randrange(a + 1, len(line))
+        diag = d[0] != 0 and d[1] != 0
+        pk = rng.choice("PNBRQ")
+        if pk == "P" and line[a][1] in (0, 7):
+            pk = "N"
+        b[sq(*line[a])] = pk
+        b[sq(*line[bpos])] = rng.choice("bq") if diag else rng.choice("rq")
+        pins += 1
+    if pins < 2:
+        return None
+    free = [s for s in range(64) if s not in b and max(abs(s % 8 - kf), abs(s // 8 - kr)) > 1]
+    b[rng.choice(free)] = "k"
+    b = rand_extra(rng, b, rng.randrange(0, 4))
+    return fen_of(b, "w")
+
+
+def template_pawnwedge(rng):
+    """advanced pawn chains facing blockers: one capture changes several pawns from blocked to passed (large positional swings)"""
+    b = {}
+    base = rng.randrange(0, 6)
+    rank = rng.choice([4, 5, 5])
+    n = rng.choice([2, 3, 3])
+    for i in range(n):
+        if base + i < 8:
+            b[sq(base + i, rank)] = "P"
+    for i in range(rng.choice([1, 1, 2])):
+        f = base + rng.randrange(0, n)
+        if f < 8 and sq(f, rank + 1) not in b:
+            b[sq(f, rank + 1)] = "p"
+    if not any(v == "p" for v in b.values()):
+        return None
+    free = [s for s in range(0, 16) if s not in b]
+    b[rng.choice(free)] = "K"
+    free = [s for s in range(48, 64) if s not in b and all(abs(s % 8 - k % 8) > 1 or abs(s // 8 - k // 8) > 1 for k, v in b.items() if v == "P")]
+    if not free:
+        return None
+    b[rng.choice(free)] = "k"
+    if rng.random() < 0.4:
+        b = rand_extra(rng, b, rng.randrange(1, 3), allow_pawns=False)
+    return fen_of(b, rng.choice("wb"))
+
+
 def template_check(rng):
     kf, kr = rng.randrange(8), rng.randrange(8)
     b = {sq(kf, kr): "K"}
@@ -410,7 +468,7 @@ def template_endgame(rng):
     return fen_of(b, rng.choice("wb"), "-", "-", rng.choice([0, 0, 3, 40]), rng.randrange(1, 80))
 
 
-TEMPLATES = [("endgame", template_endgame), ("promo-castle", template_promo_castle), ("many", template_many_queens), ("kxr", template_kxr), ("pin", template_pin), ("check", template_check), ("ep", template_ep),
+TEMPLATES = [("endgame", template_endgame), ("promo-castle", template_promo_castle), ("many", template_many_queens), ("kxr", template_kxr), ("pin", template_pin), ("multipin", template_multipin), ("pawnwedge", template_pawnwedge), ("check", template_check), ("ep", template_ep),
              ("castle960", template_castle), ("promo", template_promo)]
 
 
